@@ -334,6 +334,17 @@ def r4_dropped_lines(ctx):
     if inplace and not keeps:
         return
     rep.floor('C19.R4', 'keep sites in the line filter', len(keeps), 1)
+    # the filtered list replaces the part's lines AFTER the loop, whatever the loop kept: a store inside the loop body is never executed for a
+    # part all of whose lines are dropped, and that part keeps its star imports
+    kept_lists = {c.func.value.id for (_n, c) in keeps if isinstance(c.func, ast.Attribute) and isinstance(c.func.value, ast.Name)}
+    stores = [n for n in g.nodes if n.kind == 'stmt' and not n.dup and isinstance(n.ast, ast.Assign) and any(is_attr_of(t, part, 'exec_lines') for t in n.ast.targets) and
+              isinstance(n.ast.value, ast.Name) and n.ast.value.id in kept_lists]
+    for n in stores:
+        inside = graph.in_loop_body(n, ll.ast)
+        rep.ob('C19.R4', ctx.loc(f, n.ast), ctx.src(n.ast), not inside,
+               'the filtered lines replace the part\'s lines once the filter loop is over' if not inside else
+               'the filtered list is stored from INSIDE the filter loop: for a part that consists of star imports only no line is kept, the store never runs and the part keeps all of '
+               'its star imports -- `import *` inside the generated function is a SyntaxError', anchor=CONV)
     # the filter is in force when the remove_import_star switch is ON, and the switch is on by default
     sw_facts = [fa for fa in graph.guard_facts(ctx.dom(g, g.entry), ll) if fa.polarity in (True, False) and isinstance(fa.expr, ast.AST) and 'remove_import_star' in fa.text]
     if sw_facts:
@@ -609,6 +620,7 @@ from ..selftest import fire, silent      # noqa: E402
 RN = 'xdoctest/runner.py'
 US = 'xdoctest/utils/util_str.py'
 VARIANTS = [
+    fire('filtered-lines-stored-inside-the-filter-loop', 'C19.R4', (RN, "                    new_exec_lines.append(line)\n                part.exec_lines = new_exec_lines\n", "                    new_exec_lines.append(line)\n                    part.exec_lines = new_exec_lines\n")),
     fire('module-path-dots-kept-in-the-name', 'C19.R2b', (RN, "example.modname.replace('.', '_') + '_'", "example.modname + '_'")),
     fire('function-name-keeps-its-dots', 'C19.R2b', (RN, "example.modname.replace('.', '_')", "example.modname.replace('_', '.')")),
     fire('star-import-removal-only-when-switched-off', 'C19.R4', (RN, "            if dump_config['remove_import_star']:\n", "            if not dump_config['remove_import_star']:\n")),
